@@ -905,7 +905,9 @@ def responses(d: ls.Driver):
     cur = None
     seen_payload = False
     killed = False
+    prev_blocked = d.boot_obs[1] if getattr(d, "boot_obs", None) else None
     for ev, ob, cmd in zip(d.events, d.obs, d.cmds):
+        blocked_now = ob[1]
         if ev in ("EvKill KC", "EvKillSelf KC"):
             killed = True      # the ERR announcing the termination is not a response to a command
             cur = None         # the command in progress is abandoned together with the connection
@@ -916,7 +918,9 @@ def responses(d: ls.Driver):
                 out.append(cur)
             cur = [cmd, [], False]
         if cur is not None and ev.startswith("EvKill"):
-            cur[0] = tuple(cur[0]) + ("killed",)
+            # where the task was suspended when the kill arrived ("@drain", "@app", ...) goes in front of the final marker
+            base = tuple(x for x in cur[0] if x != "killed")
+            cur[0] = base + ("@" + str(prev_blocked), "killed")
         if cur is not None:
             for o in ob[0]:
                 if isinstance(o, tuple) and o[0] == "OWrite":
@@ -930,6 +934,7 @@ def responses(d: ls.Driver):
             # not inside a command: anything written in command phase is unsolicited
             if seen_payload and not killed and any(isinstance(o, tuple) and o[0] == "OWrite" for o in ob[0]):
                 out.append([("idle",), [(q, a) for o in ob[0] if isinstance(o, tuple) and o[0] == "OWrite" for q, a, _ in o[1]], True])
+        prev_blocked = blocked_now
     if cur is not None:
         out.append(cur)
     return out
